@@ -5,19 +5,58 @@ import (
 	"encoding/json"
 	"fmt"
 	"io"
+	"os"
+	"reflect"
+	"runtime"
 	"strings"
+	"sync"
+	"unsafe"
 
 	"github.com/gopatchy/bkl"
 	"verif/core"
 )
 
-// newParser returns a fresh real parser.
+// newParser returns a fresh real parser. bkl.New opens the root directory, and
+// the descriptor is only released by a finalizer; a bounded-exhaustive run
+// creates millions of parsers, so the harness closes the root of a parser once
+// it is 256 parsers old (no check keeps more than a handful alive at a time).
+// Only file loading uses the root; a tree whose Parser has no such field is
+// left to the garbage collector.
 func newParser() *bkl.Parser {
 	p, err := bkl.New()
 	if err != nil {
-		panic(fmt.Sprintf("harness: bkl.New: %v", err))
+		runtime.GC()
+		p, err = bkl.New()
+		if err != nil {
+			panic(fmt.Sprintf("harness: bkl.New: %v", err))
+		}
+	}
+	parserRingMu.Lock()
+	old := parserRing[parserRingPos]
+	parserRing[parserRingPos] = p
+	parserRingPos = (parserRingPos + 1) % len(parserRing)
+	parserRingMu.Unlock()
+	if old != nil {
+		closeParserRoot(old)
 	}
 	return p
+}
+
+var (
+	parserRing    [256]*bkl.Parser
+	parserRingPos int
+	parserRingMu  sync.Mutex
+)
+
+func closeParserRoot(p *bkl.Parser) {
+	defer func() { recover() }()
+	f := reflect.ValueOf(p).Elem().FieldByName("root")
+	if !f.IsValid() || f.Kind() != reflect.Ptr || f.IsNil() {
+		return
+	}
+	if r, ok := reflect.NewAt(f.Type(), unsafe.Pointer(f.UnsafeAddr())).Elem().Interface().(*os.Root); ok && r != nil {
+		r.Close()
+	}
 }
 
 // docData snapshots Documents() as deep copies.
